@@ -316,6 +316,55 @@ def chainB {α : Type} (r : α → α → Bool) : List α → Bool
   | [_] => true
   | a :: b :: rest => r a b && chainB r (b :: rest)
 
+
+/-! ### well-nestedness: what makes the rows of a trace come out sorted -/
+
+section
+variable {σ : Type}
+
+/-- the values of the level's counter stamped on the uses of key `k` among the items of one loop
+    execution (uses inside the loop body are not looked at) -/
+def levelStamps (k : Key) : LSt → List (Item σ) → List Nat
+  | _, [] => []
+  | st, .use r ty _ _ :: rest => (if (r, ty) = k then [st.cnt] else []) ++ levelStamps k st rest
+  | st, .useSaved s r ty _ _ :: rest => (if (r, ty) = k then [st.regs s] else []) ++ levelStamps k st rest
+  | st, .inc :: rest => levelStamps k { st with cnt := st.cnt + 1 } rest
+  | st, .save s :: rest => levelStamps k { st with regs := upd st.regs s st.cnt } rest
+  | st, .bump s :: rest => levelStamps k { st with regs := upd st.regs s (st.regs s + 1) } rest
+  | st, .sub _ :: rest => levelStamps k st rest
+
+/-- the loop body runs at most once per value of the level's counter -/
+def sepB : Bool → List (Item σ) → Bool
+  | _, [] => true
+  | f, .sub _ :: rest => f && sepB false rest
+  | _, .inc :: rest => sepB true rest
+  | f, _ :: rest => sepB f rest
+
+def subsOf : List (Item σ) → List σ
+  | [] => []
+  | .sub x :: rest => x :: subsOf rest
+  | _ :: rest => subsOf rest
+
+end
+
+/-- key `k` is not used anywhere in the nest -/
+def noKey (k : Key) : (d : Nat) → Nest d → Bool
+  | 0, _ => true
+  | d + 1, (_, items) => (levelStamps k {} items).isEmpty && (subsOf items).all (noKey k d)
+
+def leB (a b : Nat) : Bool := decide (a ≤ b)
+def ltB (a b : Nat) : Bool := decide (a < b)
+
+/-- well-nestedness with respect to key `k`, which lives `here` levels below the outermost loop:
+    above that level the loop body runs at most once per counter value and `k` is not used; at that
+    level the stamps of `k`'s uses are non-decreasing (`strict`: increasing); below it `k` is not used -/
+def wn (k : Key) (strict : Bool) : (here d : Nat) → Nest d → Bool
+  | _, 0, _ => true
+  | 0, d + 1, (_, items) =>
+    chainB (if strict then ltB else leB) (levelStamps k {} items) && (subsOf items).all (noKey k d)
+  | h + 1, d + 1, (_, items) =>
+    sepB true items && (levelStamps k {} items).isEmpty && (subsOf items).all (wn k strict h d)
+
 /-! ## 3. What the iterators emit -/
 
 /-- what a lazy source does: calls of its own, and elements handed to its consumer -/
